@@ -46,13 +46,15 @@ D2 == {2}
 
 \* ---- ctl
 SubsUsed == {th[t].sub : t \in Threads}
+\* SetCurrentConsensusForProtocol "is not thread safe": one call at a time (concurrent with everything else)
+SetBusy == \E u \in Threads : th[u].op = "set" /\ th[u].pc \notin {"idle", "done"}
 CtlMenu == {[IdleT EXCEPT !.op = "part", !.d = d] : d \in (IF "part" \in MCOps THEN Duties ELSE {})}
       \cup {[IdleT EXCEPT !.op = "prop", !.d = d, !.v = 1] : d \in (IF "prop" \in MCOps THEN Duties ELSE {})}
       \cup {[IdleT EXCEPT !.op = "sub", !.sub = s] : s \in (IF "sub" \in MCOps THEN ToSet(MCSubs) \ SubsUsed ELSE {})}
       \cup (IF "pid" \in MCOps THEN {[IdleT EXCEPT !.op = "pid"]} ELSE {})
       \cup (IF "wstart" \in MCOps THEN {[IdleT EXCEPT !.op = "wstart", !.ctx = "w"]} ELSE {})
       \cup {[IdleT EXCEPT !.op = "setimpl", !.impl = i] : i \in (IF "setimpl" \in MCOps THEN MCSetImpl ELSE {})}
-      \cup {[IdleT EXCEPT !.op = "set", !.pid = p] : p \in (IF "set" \in MCOps THEN MCSetIds ELSE {})}
+      \cup {[IdleT EXCEPT !.op = "set", !.pid = p] : p \in (IF "set" \in MCOps /\ ~SetBusy THEN MCSetIds ELSE {})}
 CtlEnv == \/ \E t \in Threads : \/ \E r \in CtlMenu : Call(t, r)
                                  \/ Exit(t, "nil")
           \/ CtlStart \/ AppCancel
